@@ -386,7 +386,13 @@ func scalarBits(v reflect.Value) uint64 {
 			return math.Float64bits(*(v.Addr().Interface().(*float64)))
 		}
 		return math.Float64bits(v.Float())
-	case reflect.Int8, reflect.Int16, reflect.Int32, reflect.Int64:
+	case reflect.Int8:
+		return uint64(uint8(v.Int()))
+	case reflect.Int16:
+		return uint64(uint16(v.Int()))
+	case reflect.Int32:
+		return uint64(uint32(v.Int()))
+	case reflect.Int64:
 		return uint64(v.Int())
 	case reflect.Uint8, reflect.Uint16, reflect.Uint32, reflect.Uint64:
 		return v.Uint()
